@@ -38,6 +38,8 @@ def run(rep, tier):
     dense.r_seg_fields(rep, f)
     dense.r_seg_lookup(rep, f)
     dense.r_seg_per_query(rep, f)
+    rep.rule("R-SEG-WIDTH", "a segment the library builds by itself (the placeholder of a zero-length run) gets a width that interval evaluation shows non-zero for every start point: the interpolation routines divide by it")
+    dense.r_seg_width(rep, f)
     rep.rule("R-SPAN-ENDS", "ContinuousOutput::t_span() is (first segment's xold, last segment's xold + h) in the order of integration (symbolic, dense.rs helpers interpreted in place)")
     dense.r_span_ends(rep, f)
     rep.rule("R-BDF-INTERP", "BDF: with the dense block solve() stores, interpolate() passes through the last k+1 solution values: u(x) = y_new, u(xold) = y_old, u(x - m h) = y_(n+1-m)")
